@@ -13,7 +13,7 @@ CONSTANTS
   ZDCode = {30309,120703,3003705}
   Delivery = "by_prior"
   Passes = "user_table"
-  QNum = {7,13,3012}
+  QNum = {7,3012}
   QShift = 12
   QDen = {4}
   ENum = {6,14}
@@ -25,10 +25,10 @@ CONSTANTS
   Depth = 0
   Export = FALSE
   SetWeight = 1
+  RareWeight = 1
   Setter = "rebuilds"
-INVARIANT ZOk
 INVARIANT ObjectInv
-INVARIANT FitsInv
+INVARIANT ClausesInv
 CONSTRAINT Bound
 CONSTRAINT Emit
 CHECK_DEADLOCK FALSE
